@@ -13,6 +13,17 @@ G_self  == (1 :> <<1>>) @@ (2 :> <<1>>) @@ (3 :> <<>>)
 G_fan   == (1 :> <<2, 3>>) @@ (2 :> <<3>>) @@ (3 :> <<>>)
 G_cyc3  == (1 :> <<2, 3>>) @@ (2 :> <<3>>) @@ (3 :> <<1>>)
 
+\* graphs with key 4, a leaf reached as a direct typed entry given by reference (an ExtGState in a node's resources):
+\* after the parent (typed get) in the order in which the node's entries are decoded
+K4 == {1, 2, 3, 4}
+D4 == {4}
+G_dir     == (1 :> <<4>>)    @@ (2 :> <<4>>) @@ (3 :> <<4>>) @@ (4 :> <<>>)
+G_dirpar  == (1 :> <<2, 4>>) @@ (2 :> <<4>>) @@ (3 :> <<>>)  @@ (4 :> <<>>)
+G_dircyc  == (1 :> <<2, 4>>) @@ (2 :> <<1>>) @@ (3 :> <<4>>) @@ (4 :> <<>>)
+DirectGraphs == {G_dir, G_dirpar, G_dircyc}
+W_dir == {(1 :> <<1, 2>>) @@ (2 :> <<3>>), (1 :> <<1, 1>>) @@ (2 :> <<3, 2>>), (1 :> <<3, 1>>) @@ (2 :> <<1>>)}
+W_dir3 == {(1 :> <<1, 2>>) @@ (2 :> <<3>>) @@ (3 :> <<2, 3>>)}
+
 AcyclicGraphs == {G_indep, G_chain, G_join}
 CyclicGraphs  == {G_cycle, G_self}
 AllGraphs     == AcyclicGraphs \cup CyclicGraphs
@@ -41,7 +52,8 @@ End == IF panicked THEN "panic" ELSE IF AllDone THEN "done" ELSE IF Stuck THEN "
 DeadlockProne == CacheOn /\ "cache_wait_unbounded" \in Dev /\ \E k \in Keys : ReachesCycle(k, {})
 
 CaseJson == [threads |-> Cardinality(Threads),
-             deps    |-> [k \in 1..3 |-> Deps[k]],
+             deps    |-> [k \in 1..Cardinality(Keys) |-> Deps[k]],
+             direct  |-> [k \in 1..Cardinality(Keys) |-> k \in DirectKeys],
              loads   |-> [t \in 1..Cardinality(Threads) |-> Loads[t]],
              shared  |-> SharedResolver, cacheOn |-> CacheOn,
              sched   |-> sched,
